@@ -547,6 +547,43 @@ func (env *specEnv) call(n *SCall) (TV, error) {
 			return TV{}, err
 		}
 		return TV{fmt.Sprintf("(c-cap %s)", a.T), "Int", intT()}, nil
+	case "byteat":
+		// byteat(s, p): the byte at ABSOLUTE position p of the text that string s is a window of
+		// (s[k] == byteat(s, off(s) + k)); windows cut from one text share it, whatever their offsets
+		if err := argN(2); err != nil {
+			return TV{}, err
+		}
+		a, err := env.Term(n.Args[0])
+		if err != nil {
+			return TV{}, err
+		}
+		a = env.view(a)
+		if a.Sort != "Str" {
+			return TV{}, fmt.Errorf("byteat: not a string")
+		}
+		pidx, err := env.Term(n.Args[1])
+		if err != nil {
+			return TV{}, err
+		}
+		return TV{fmt.Sprintf("(select (s-base %s) %s)", a.T, pidx.T), "Int", intT()}, nil
+	case "sametext":
+		// sametext(a, b): a and b are windows of the same underlying text
+		if err := argN(2); err != nil {
+			return TV{}, err
+		}
+		a, err := env.Term(n.Args[0])
+		if err != nil {
+			return TV{}, err
+		}
+		b, err := env.Term(n.Args[1])
+		if err != nil {
+			return TV{}, err
+		}
+		a, b = env.view(a), env.view(b)
+		if a.Sort != "Str" || b.Sort != "Str" {
+			return TV{}, fmt.Errorf("sametext: not strings")
+		}
+		return TV{fmt.Sprintf("(= (s-base %s) (s-base %s))", a.T, b.T), "Bool", nil}, nil
 	case "off":
 		a, err := env.Term(n.Args[0])
 		if err != nil {
